@@ -192,6 +192,9 @@ class LineFileBase(SeqProp):
                         sel = [int(x) for x in w[1:]]
                         # alternate between a list, a tuple and a generator as the iterable selector
                         sel_obj = [sel, tuple(sel), (x for x in sel)][len(sel) % 3]
+                        if len(sel) >= 2 and sel[1] != sel[0] and all(b_ - a_ == sel[1] - sel[0] for a_, b_ in zip(sel, sel[1:])):
+                            # an arithmetic progression is handed over as a range object (negative ends, counting down included)
+                            sel_obj = range(sel[0], sel[-1] + (1 if sel[1] > sel[0] else -1), sel[1] - sel[0])
                         out.append("list " + strs(unwrap(x) for x in f[sel_obj]))
                     elif k == "iter_new":
                         iters.append(iter(f)); out.append(f"ret {len(iters) - 1}")
@@ -388,6 +391,10 @@ class LineFileBase(SeqProp):
                     v = ref.pop(int(w[1])); dirty = True; exp = "ret " + enc_str(v)
                 elif k == "remove":
                     ref.remove(dec_str(w[1])); dirty = True; exp = "ok"
+                elif k == "reverse" and not opened and len(ref) >= 2:
+                    exp = None  # the inherited reverse() reads items: on a closed file it raises before it changes anything
+                    if line == "ok":
+                        ref.reverse(); dirty = True
                 elif k == "reverse":
                     old = list(ref); ref.reverse()
                     dirty = dirty or len(ref) >= 2
@@ -542,8 +549,16 @@ class C11Prop(LineFileBase):
                     sl = [rng.choice(["-", str(ri())]), rng.choice(["-", str(ri())]), rng.choice(["-", "-", "1", "2", "-1", "-2", "0"])]
                     body.append("slice " + " ".join(sl))
                 elif q < 0.5:
-                    body.append(("sel " + " ".join(str(rng.randint(-nl, nl - 1)) for _ in range(rng.randint(0, 4)))).rstrip()
-                                if nl else "sel")
+                    if nl >= 2 and rng.random() < 0.4:
+                        # positions in arithmetic progression (handed over as a range object): across 0 from the negative side,
+                        # counting down to 0, ordinary
+                        a_ = rng.randint(-nl, nl - 1); st_ = rng.choice([1, 1, -1, 2, -2]); k_ = rng.randint(2, 4)
+                        prog = [a_ + st_ * q_ for q_ in range(k_)]
+                        prog = [x for x in prog if -nl <= x < nl]
+                        body.append(("sel " + " ".join(map(str, prog))).rstrip())
+                    else:
+                        body.append(("sel " + " ".join(str(rng.randint(-nl, nl - 1)) for _ in range(rng.randint(0, 4)))).rstrip()
+                                    if nl else "sel")
                 elif q < 0.58 and niter < 3:
                     body.append("iter_new"); niter += 1
                 elif q < 0.9 and niter:
@@ -650,7 +665,16 @@ class C12Prop(LineFileBase):
                 else:
                     body.append("save " + enc_str(rng.choice(["\n", "\n", "\r\n", "\t", ""])))
             body += ["lines", "save " + enc_str("\n")]
-            yield self.mk(variant, content, body)
+            c_ = self.mk(variant, content, body)
+            if rng.random() < 0.12 and len(body) >= 3:
+                # the file object is edited before it is opened for the first time (the edits are in memory; nothing needs the handle)
+                ops_ = c_.ops
+                k_ = next((i for i, o in enumerate(ops_[2:], 2) if o.split()[0] in ("get", "slice", "sel", "lines", "save", "pop",
+                                                                                   "remove", "index", "count", "has", "rev", "iter_new",
+                                                                                   "iter_next", "close", "open")), len(ops_))
+                if k_ > 2:
+                    c_.ops = [ops_[0]] + ops_[2:k_] + ["open"] + ops_[k_:]
+            yield c_
 
     # mutable *record* files whose records have a text of their own (CSV / TSV / JSON): edited, saved with a chosen line
     # ending, bytes of the saved file and of the source compared, reopened — the scenario of C13's harness, judged by its
